@@ -62,6 +62,9 @@ func init() {
 	pt.badCfgPct = 0
 	suites["p-reset"] = pSuite(pt, []string{"p.twin.fresh"})
 	suites["p-large"] = func(r *rng, id string, cnt counters, emit func(line, out string)) ([]finding, bool) {
+		if r.chance(25) {
+			return genPLargeWrap(r, id, cnt, emit), true
+		}
 		e, d := genPLarge(r, id, cnt, emit)
 		fs := e.finds
 		if d != nil {
